@@ -237,6 +237,28 @@ def run(R):
                                       "args": args, "tree": cli.tree_json(tree), "history": [list(x) for x in seq], "build": os.path.basename(os.path.dirname(b))})
                     if i < 2 and len(R.coverage["samples"]) < 4:
                         R.sample({"args": args, "exit": rc})
+    # every enumerated value of every option of every subcommand, once on its own (the values come from the real clap grammar)
+    small = [{"p": "a.txt", "k": "f", "c": b"old_name OldName old-name\nOld Name\n", "m": 0o644}, {"p": "old_name_dir", "k": "d", "m": 0o755}]
+    for sc in grammar["subcommands"]:
+        if sc["name"] in GRAMMAR_SKIP_CMDS:
+            continue
+        pos = sorted([a for a in sc["args"] if a["positional"] and a["required"]], key=lambda a: a["index"] or 0)
+        base = ["--no-auto-init", "-y", sc["name"]] + ["latest" if a["id"] == "id" else "old_name" if k == 0 else "new_name" for k, a in enumerate(pos)]
+        has_dry = any(a["long"] == "dry-run" for a in sc["args"])
+        with cli.Sandbox(small) as sb:
+            for a in sc["args"]:
+                if a["positional"] or a["global"] or not a["long"] or not a["takes_value"] or not a["possible"]:
+                    continue
+                for val in a["possible"]:
+                    args = base + ["--" + a["long"], val] + (["--dry-run"] if has_dry else [])
+                    rc, o, e = sb.run(args, timeout=60)
+                    stats["enumerated_value_runs"] = stats.get("enumerated_value_runs", 0) + 1
+                    stats["exit_codes"][rc] = stats["exit_codes"].get(rc, 0) + 1
+                    R.case(("enum", tuple(args)), nontrivial=True)
+                    err = e.decode("utf-8", "replace")
+                    if rc == 101 or "panicked at" in err or rc not in OK_EXITS:
+                        fails.append({"why": f"command exited with status {rc}" + (": " + err[err.find("panicked at"):][:200] if "panicked at" in err else ""),
+                                      "args": args, "tree": cli.tree_json(small), "history": [args], "build": "debug"})
     R.coverage["input_distribution"] = stats
     for f in fails[:3]:
         R.violation(f["why"], {"kind": "impl_failure", **f})
